@@ -18,9 +18,42 @@ BD = 'torchtree.evolution.birth_death'
 # ---------------------------------------------------------------------------
 # C09.O  JSON options select the behaviour they name
 # ---------------------------------------------------------------------------
+class _Subst(ast.NodeTransformer):
+    def __init__(self, name, value):
+        self.name = name
+        self.value = value
+
+    def visit_Name(self, node):
+        if node.id == self.name and isinstance(node.ctx, ast.Load):
+            return ast.copy_location(ast.Constant(value=self.value), node)
+        return node
+
+
+def unroll_constant_loops(fn: ast.FunctionDef) -> ast.FunctionDef:
+    """`for k in ('a', 'b'): body` -> body[k:='a']; body[k:='b'] (so that option stores written as a loop over key names are seen)."""
+    class Unroll(ast.NodeTransformer):
+        def visit_For(self, node):
+            self.generic_visit(node)
+            if isinstance(node.target, ast.Name) and isinstance(node.iter, (ast.Tuple, ast.List)) and node.iter.elts \
+                    and all(isinstance(e, ast.Constant) and isinstance(e.value, str) for e in node.iter.elts) and not node.orelse:
+                out = []
+                for e in node.iter.elts:
+                    for st in node.body:
+                        out.append(ast.fix_missing_locations(_Subst(node.target.id, e.value).visit(copy.deepcopy(st))))
+                return out
+            return node
+    new = Unroll().visit(copy.deepcopy(fn))
+    ast.fix_missing_locations(new)
+    for parent in ast.walk(new):
+        for child in ast.iter_child_nodes(parent):
+            child._parent = parent
+    return new
+
+
 def check_options(ctx, rep):
     n = 0
-    for ci, fn in all_from_json(ctx):
+    for ci, fn0 in all_from_json(ctx):
+        fn = unroll_constant_loops(fn0)
         params = [a.arg for a in fn.args.args]
         if len(params) < 2:
             continue
@@ -51,10 +84,53 @@ def check_options(ctx, rep):
                     k = const_key(ctx, ci.module, x.args[0])
                     if k:
                         keys.add(k)
+            # forwarded only when truthy?  then a constructor default that is not falsy can never be switched off
+            gate = None
+            p = getattr(st, '_parent', None)
+            while p is not None and p is not fn:
+                if isinstance(p, ast.If) and st in list(ast.walk(ast.Module(body=p.body, type_ignores=[]))):
+                    t = p.test
+                    if isinstance(t, ast.Call) and isinstance(t.func, ast.Attribute) and t.func.attr == 'get' and isinstance(t.func.value, ast.Name) \
+                            and t.func.value.id == data and t.args and const_key(ctx, ci.module, t.args[0]):
+                        keys.add(const_key(ctx, ci.module, t.args[0]))
+                    if isinstance(t, ast.Subscript) and isinstance(t.value, ast.Name) and t.value.id == data and const_key(ctx, ci.module, t.slice):
+                        keys.add(const_key(ctx, ci.module, t.slice))
+                p = getattr(p, '_parent', None)
             if not keys:
                 continue
             n += 1
             key = f"{ci.qualname}::{X}"
+            gate = None
+            p = getattr(st, '_parent', None)
+            while p is not None and p is not fn:
+                if isinstance(p, ast.If) and st in list(ast.walk(ast.Module(body=p.body, type_ignores=[]))):
+                    t = p.test
+                    tk = None
+                    if isinstance(t, ast.Call) and isinstance(t.func, ast.Attribute) and t.func.attr == 'get' and isinstance(t.func.value, ast.Name) \
+                            and t.func.value.id == data and t.args:
+                        tk = const_key(ctx, ci.module, t.args[0])
+                    if isinstance(t, ast.Subscript) and isinstance(t.value, ast.Name) and t.value.id == data:
+                        tk = const_key(ctx, ci.module, t.slice)
+                    if tk == X:
+                        gate = p
+                p = getattr(p, '_parent', None)
+            if gate is not None:
+                r0 = ci.resolve('__init__')
+                dflt = None
+                if r0:
+                    init = r0[1]
+                    args = init.args.args
+                    for a, dv in zip(args[len(args) - len(init.args.defaults):], init.args.defaults):
+                        if a.arg == X:
+                            dflt = dv
+                    for a, dv in zip(init.args.kwonlyargs, init.args.kw_defaults):
+                        if a.arg == X and dv is not None:
+                            dflt = dv
+                truthy_default = isinstance(dflt, ast.Constant) and bool(dflt.value)
+                rep.check('C09.O', key + '::can-be-switched-off', not truthy_default, where(ci.module, gate),
+                          {'constructor_default': ast.unparse(dflt) if dflt is not None else None},
+                          f"{ci.name}.from_json forwards `{X}` only when the JSON value is truthy, but the constructor default is "
+                          f"{ast.unparse(dflt) if dflt is not None else '?'}: \"{X}\": false in a specification is ignored")
             rep.check('C09.O', key, X in keys, where(ci.module, st), {'constructor_option': X, 'json_keys_read': sorted(keys)},
                       f"{ci.name}.from_json fills the constructor option `{X}` from the JSON key(s) {sorted(keys)}: the option named `{X}` in a "
                       f"specification is ignored and `{sorted(keys)[0]}` selects something else")
